@@ -44,7 +44,13 @@ def _pyvc_worker(args):
             extra['mutants'] = (k, t, surv)
         return [o.to_json() for o in obs], extra, dict(solve.STATS), None
     except Exception:  # noqa: BLE001
-        return [], {}, {}, f'{target}: {traceback.format_exc()[-2000:]}'
+        # an internal error of the verifier on one contract makes that contract undecided (the
+        # other obligations, the replays and the bounded driver still run and report)
+        tb = traceback.format_exc()[-1500:]
+        ob = Obligation(f'pyvc:{target}/engine', '', 'pyvc', ERROR,
+                        text='the verifier raised an internal error on this contract',
+                        detail=tb, functions=[target.split('@')[0]])
+        return [ob.to_json()], {}, {}, None
 
 
 def run_pyvc(prop, tier):
